@@ -121,6 +121,15 @@ theorem gen_conjugate_involution (hnn : ∀ z : Cx α, Cx.neg (Cx.neg z) = z) (h
   split
   · exact hcc _
   · rw [hnc, hcc, hnn]
+
+/-- the `np.conjugate` / `np.conj` branch of `Modes.__array_ufunc__` runs the very loop of the method (definitionally the same generated term):
+    with a fresh output or another array as `out[0]` … -/
+theorem ufunc_loop_eq (sin : Int → Cx α) (C : Nat) (L e s : Int) (st : φ) :
+    Gen.Modes_conjugate_ufunc_loop (α := α) sin C L e s st = Gen.Modes_conjugate_loop (α := α) sin C L e s st := rfl
+
+/-- … and with `out[0]` the operand itself (`np.conjugate(f, out=f)`): the in-place loop, which reads each pair before writing it -/
+theorem ufunc_out_is_operand_eq (A : Nat) (L e s : Int) (st : φ) :
+    Gen.Modes_conjugate_ufunc_out_is_operand_loop (α := α) A L e s st = Gen.Modes_conjugate_inplace_loop (α := α) A L e s st := rfl
 end
 
 /-- non-vacuity: IEEE doubles, spin 1, `ell_max = 3`, the cell (2, −1), in place -/
